@@ -135,7 +135,7 @@ pub fn triage(sc: Scenario, v: Violation, exec: &dyn Fn(&Scenario) -> Option<Vio
 pub fn report_violation(run: u64, original_ops: usize, sc: &Scenario, v: &Violation) -> String {
     let c = ctx();
     let dir = c.verif.join("replays");
-    let path = dir.join(format!("{}-{}-{}-{}.json", c.prop, sc.stage, c.seed, run));
+    let path = dir.join(format!("{}-{}-{}-{}{}.json", c.prop, sc.stage, c.seed, run, if profile() == "shipped" { "-shipped" } else { "" }));
     let rf = ReplayFile {
         property: v.property.clone(),
         class: v.class.clone(),
@@ -146,6 +146,7 @@ pub fn report_violation(run: u64, original_ops: usize, sc: &Scenario, v: &Violat
         scenario: sc.clone(),
         violation: v.clone(),
         replay_cmd: format!("/verif/check replay {}", path.display()),
+        profile: profile().into(),
     };
     if !c.dry {
         let _ = std::fs::create_dir_all(&dir);
@@ -162,12 +163,24 @@ pub fn report_violation(run: u64, original_ops: usize, sc: &Scenario, v: &Violat
     path.display().to_string()
 }
 
+/// build configuration of this binary
+pub fn profile() -> &'static str {
+    if cfg!(debug_assertions) {
+        "checked"
+    } else {
+        "shipped"
+    }
+}
+
+/// summary of the reduced pass in the shipped build configuration (set by main before the stages run)
+pub static SHIPPED: std::sync::OnceLock<serde_json::Value> = std::sync::OnceLock::new();
+
 pub fn hang_exit(run: u64, sc: Option<(&Scenario, usize, bool)>) -> ! {
     let c = ctx();
     let st = stage();
     let dir = c.verif.join("replays");
     let _ = std::fs::create_dir_all(&dir);
-    let path = dir.join(format!("{}-{}-{}-{}-hang.json", c.prop, st, c.seed, run));
+    let path = dir.join(format!("{}-{}-{}-{}-hang{}.json", c.prop, st, c.seed, run, if profile() == "shipped" { "-shipped" } else { "" }));
     if let Some((sc, original_ops, minimised)) = sc {
         let v = Violation {
             property: c.prop.clone(),
@@ -178,7 +191,7 @@ pub fn hang_exit(run: u64, sc: Option<(&Scenario, usize, bool)>) -> ! {
             got: vec!["no progress within the hang limit (300 s by default)".into()],
             oracle: "watchdog over the per-run heartbeat".into(),
         };
-        let rf = ReplayFile { property: c.prop.clone(), class: v.class.clone(), seed: c.seed, run, minimised, original_ops, scenario: sc.clone(), violation: v, replay_cmd: format!("/verif/check replay {}", path.display()) };
+        let rf = ReplayFile { property: c.prop.clone(), class: v.class.clone(), seed: c.seed, run, minimised, original_ops, scenario: sc.clone(), violation: v, replay_cmd: format!("/verif/check replay {}", path.display()), profile: profile().into() };
         let _ = std::fs::write(&path, serde_json::to_string_pretty(&rf).unwrap());
         println!("VIOLATION property={} replay={}", c.prop, path.display());
         std::process::exit(1);
@@ -204,7 +217,8 @@ pub struct EvidenceMeta<'a> {
 pub fn write_evidence(stats: &Stats, m: EvidenceMeta) {
     let c = ctx();
     println!("DIGEST {} seed={} runs={} ticks={} comparisons={} digest={:016x}", c.prop, c.seed, stats.runs, stats.ticks, stats.comparisons, stats.digest);
-    if c.dry {
+    if c.dry || std::env::var("VERIF_SHIPPED").is_ok() {
+        // the shipped-configuration pass is a child of the real check: its summary goes into the parent's evidence
         return;
     }
     let mut samples = stats.samples.clone();
@@ -237,6 +251,7 @@ pub fn write_evidence(stats: &Stats, m: EvidenceMeta) {
         "maxima": stats.maxima,
         "output_digest": format!("{:016x}", stats.digest),
         "known_findings_hit": stats.known_findings.len(),
+        "shipped_configuration_pass": SHIPPED.get().cloned().unwrap_or(json!({"status": "not run"})),
         "components": {
             "real": ["all 22 ta indicators, DataItem and builder, their Clone/Reset/Display/Debug and serde derives (path dependency on /repo, rebuilt from the working tree)", "bincode 1.3.3", "serde 1.0", "serde_json 1.0 (float_roundtrip) for the JSON round-trips of C06/C12"],
             "stub": ["market/world model and feed", "fault injector", "simulated disk", "op scheduler", "memory cap / allocator accounting"]
